@@ -9,10 +9,10 @@ import (
 
 func init() {
 	props["C07"] = &propCheck{
-		lean: []string{"JSight.Props.C07"},
-		exes: []string{"jsight-ctx"},
-		run:  runC07,
-		rule: "generated directive sequences with 1..4 macros (defined before or after use, with or without parentheses, pasting one another to any depth, cycles of length 1..4, unused macros) and pastes at top level, under URL, method, request, response, info, server; non-trivial = at least one PASTE is expanded; distinct = distinct token sequence",
+		lean:    []string{"JSight.Props.C07"},
+		exes:    []string{"jsight-ctx"},
+		run:     runC07,
+		rule:    "generated directive sequences with 1..4 macros (defined before or after use, with or without parentheses, pasting one another to any depth, cycles of length 1..4, unused macros) and pastes at top level, under URL, method, request, response, info, server; non-trivial = at least one PASTE is expanded; distinct = distinct token sequence",
 		trusted: []string{"the rendering of kind sequences to bytes; catalog equality of a document and its inlining is checked by search on the implementation (C04 gives the catalog model)"},
 	}
 }
@@ -24,13 +24,17 @@ func macroDoc(r *Rng) []CTok {
 	type frag []CTok
 	// fragments that can be a macro body / be pasted somewhere
 	bodies := []func() frag{
-		func() frag { return frag{{Kind: int(directive.Get), HasPath: true}, {Kind: int(directive.HTTPResponseCode)}} },
+		func() frag {
+			return frag{{Kind: int(directive.Get), HasPath: true}, {Kind: int(directive.HTTPResponseCode)}}
+		},
 		func() frag { return frag{{Kind: int(directive.HTTPResponseCode)}, {Kind: int(directive.Body)}} },
 		func() frag { return frag{{Kind: int(directive.Headers)}} },
 		func() frag { return frag{{Kind: int(directive.Query)}, {Kind: int(directive.Request)}} },
 		func() frag { return frag{{Kind: int(directive.Title)}, {Kind: int(directive.Version)}} },
 		func() frag { return frag{{Kind: int(directive.BaseURL)}} },
-		func() frag { return frag{{Kind: int(directive.Type)}, {Kind: int(directive.Enum), Name: 1 + r.Intn(6)}} },
+		func() frag {
+			return frag{{Kind: int(directive.Type)}, {Kind: int(directive.Enum), Name: 1 + r.Intn(6)}}
+		},
 		func() frag {
 			return frag{{Kind: int(directive.URL)}, {Kind: int(directive.Get)}, {Kind: int(directive.HTTPResponseCode)}}
 		},
@@ -53,8 +57,12 @@ func macroDoc(r *Rng) []CTok {
 	}
 	hosts := []func(){
 		func() { tt = append(tt, CTok{Kind: int(directive.URL)}, CTok{Kind: int(directive.Get)}) },
-		func() { tt = append(tt, CTok{Kind: int(directive.Get), HasPath: true}, CTok{Kind: int(directive.Request)}) },
-		func() { tt = append(tt, CTok{Kind: int(directive.Get), HasPath: true}, CTok{Kind: int(directive.HTTPResponseCode)}) },
+		func() {
+			tt = append(tt, CTok{Kind: int(directive.Get), HasPath: true}, CTok{Kind: int(directive.Request)})
+		},
+		func() {
+			tt = append(tt, CTok{Kind: int(directive.Get), HasPath: true}, CTok{Kind: int(directive.HTTPResponseCode)})
+		},
 		func() { tt = append(tt, CTok{Kind: int(directive.Info)}) },
 		func() { tt = append(tt, CTok{Kind: int(directive.Server)}) },
 		func() {},
@@ -112,14 +120,37 @@ func runC07(ctx *Ctx) {
 	for i := 0; i < ctx.Budget(10000, 300000); i++ {
 		seqs = append(seqs, randCToks(r, al, 3+r.Intn(10)))
 	}
-	runs := make([]ctxRun, len(seqs))
-	parallelFor(len(seqs), func(i int) { runs[i] = runCtx(seqs[i]) })
+	for i := 0; i < ctx.Budget(20000, 600000); i++ {
+		seqs = append(seqs, plausibleCToks(r, 4+r.Intn(14), true))
+	}
+	// a cycle behind a macro that is not on it, entry defined first / last, pasted or not
+	for n := 1; n <= 4; n++ {
+		for variant := 0; variant < 4; variant++ {
+			var tt []CTok
+			entry := []CTok{{Kind: int(directive.Macro), Name: 9, Explicit: true}, {Kind: int(directive.Get), HasPath: true}, {Kind: int(directive.Paste), Name: 1}, {Close: true}}
+			if variant%2 == 0 {
+				tt = append(tt, entry...)
+			}
+			for m := 1; m <= n; m++ {
+				tt = append(tt, CTok{Kind: int(directive.Macro), Name: m, Explicit: true}, CTok{Kind: int(directive.Get), HasPath: true}, CTok{Kind: int(directive.Paste), Name: m%n + 1}, CTok{Close: true})
+			}
+			if variant%2 == 1 {
+				tt = append(tt, entry...)
+			}
+			if variant >= 2 {
+				tt = append(tt, CTok{Kind: int(directive.Paste), Name: 9})
+			}
+			seqs = append(seqs, tt)
+		}
+	}
+	runs := RunCtxInWorkers(seqs)
 	var reqs []string
 	var idx []int
 	for i, s := range seqs {
 		if runs[i].Panic != "" {
-			ctx.Violate(Violation{Kind: "crash", Site: "scan/paste phase", What: "panic while processing " + ctoksProto(s) + ": " + runs[i].Panic,
-				Input: map[string]any{"op": "ctx", "tokens": ctoksProto(s)}, Signature: "ctx-panic"})
+			content, _ := renderCToks(s)
+			ctx.Violate(Violation{Kind: "crash", Site: "scan/paste phase", What: "crash while processing " + ctoksProto(s) + ": " + trunc(runs[i].Panic, 300),
+				Input: map[string]any{"op": "ctx", "tokens": ctoksProto(s), "document": string(content)}, Signature: "ctx-crash:" + firstWords(runs[i].Panic, 3)})
 			continue
 		}
 		if runs[i].Other || strings.HasPrefix(runs[i].Scan, "err") {
@@ -156,6 +187,14 @@ func runC07(ctx *Ctx) {
 		if k < 2 {
 			content, _ := renderCToks(s)
 			ctx.Cov.Sample(map[string]any{"tokens": ctoksProto(s), "document": string(content), "scan": runs[i].Scan, "expanded": runs[i].Paste})
+		}
+		if strings.HasPrefix(runs[i].Paste, "ok") && macroCycle(s) {
+			content, _ := renderCToks(s)
+			ctx.Violate(Violation{Kind: "wrong-output", Site: "core.checkMacroForRecursion",
+				What:     fmt.Sprintf("tokens %s: macros paste one another in a cycle, but the document is not rejected", ctoksProto(s)),
+				Input:    map[string]any{"op": "ctx", "tokens": ctoksProto(s), "document": string(content)},
+				Observed: runs[i].Paste, Expected: "rejected (recursion)", Signature: "cycle-accepted"})
+			continue
 		}
 		if !strings.HasPrefix(runs[i].Paste, "ok") {
 			continue
@@ -308,4 +347,81 @@ func ctxSpecResolveIDs(tt []idTok) (string, bool) {
 		i++
 	}
 	return b.String(), w
+}
+
+// macroCycle: do the top-level macros of the token sequence paste one another in a cycle (by the declarative structure)?
+func macroCycle(tt []CTok) bool {
+	// macro name -> names pasted anywhere in its body; body = tokens up to the matching ")" (explicit) or up to
+	// the next top-level-only kind (implicit); approximated through the declarative resolution
+	inl, ok := macroBodies(tt)
+	if !ok {
+		return false
+	}
+	state := map[int]int{}
+	var dfs func(n int) bool
+	dfs = func(n int) bool {
+		if state[n] == 1 {
+			return true
+		}
+		if state[n] == 2 {
+			return false
+		}
+		state[n] = 1
+		for _, m := range inl[n] {
+			if _, def := inl[m]; def && dfs(m) {
+				return true
+			}
+		}
+		state[n] = 2
+		return false
+	}
+	for n := range inl {
+		if dfs(n) {
+			return true
+		}
+	}
+	return false
+}
+
+// macroBodies: for every top-level macro (by the declarative nesting rule) the names of the PASTEs inside it.
+func macroBodies(tt []CTok) (map[int][]int, bool) {
+	want, _ := ctxSpecResolve(tt)
+	if !strings.HasPrefix(want, "ok") {
+		return nil, false
+	}
+	// parse the forest "(id kids…)" and collect, per top-level MACRO, the PASTE names below it
+	out := map[int][]int{}
+	depth := 0
+	cur := -1
+	i := 0
+	for i < len(want) {
+		switch want[i] {
+		case '(':
+			depth++
+			j := i + 1
+			for j < len(want) && want[j] >= '0' && want[j] <= '9' {
+				j++
+			}
+			var id int
+			fmt.Sscanf(want[i+1:j], "%d", &id)
+			if depth == 1 {
+				cur = -1
+				if !tt[id].Close && directive.Enumeration(tt[id].Kind) == directive.Macro {
+					cur = tt[id].Name
+					if _, dup := out[cur]; !dup {
+						out[cur] = nil
+					}
+				}
+			} else if cur >= 0 && directive.Enumeration(tt[id].Kind) == directive.Paste {
+				out[cur] = append(out[cur], tt[id].Name)
+			}
+			i = j
+		case ')':
+			depth--
+			i++
+		default:
+			i++
+		}
+	}
+	return out, true
 }
